@@ -262,12 +262,14 @@ def replay_fill(case):
     fill = case["fill"]
     d = tempfile.mkdtemp(prefix="c16_")
     f = os.path.join(d, "t.scsv")
-    schema = {"delimiter": ",", "missing": "-", "fields": [{"name": "a", "type": "string", "fill": fill}, {"name": "b", "type": "integer", "fill": "7"}]}
+    # explicitly typed string field, and a field relying on the default type (string)
+    schema = {"delimiter": ",", "missing": "-", "fields": [{"name": "a", "type": "string", "fill": fill}, {"name": "b", "type": "integer", "fill": "7"},
+                                                            {"name": "c", "fill": fill}]}
     try:
-        pio.save_scsv(f, schema, [[fill, "x"], [1, 2]])
+        pio.save_scsv(f, schema, [[fill, "x"], [1, 2], ["y", fill]])
         back = pio.read_scsv(f)
-        ok = back.a == (fill, "x") and back.b == (1, 2) and back._fields == ("a", "b")
-        return {"reproduced": not ok, "detail": {"fill": fill, "read_back": [repr(v) for v in back.a]}}
+        ok = back.a == (fill, "x") and back.b == (1, 2) and back.c == ("y", fill) and back._fields == ("a", "b", "c")
+        return {"reproduced": not ok, "detail": {"fill": fill, "read_back": [repr(v) for v in back.a + back.c]}}
     except err.SCSVError as e:
         return {"reproduced": True, "detail": f"valid schema with fill {fill!r} refused: {e}"}
     except Exception as e:  # noqa: BLE001
